@@ -28,7 +28,7 @@ def P(bin, partial=(), tb=(), assumptions=(), features=None, explanation="", tim
         "model_is_spec": list(model_is_spec),
         "pregen": pregen,
         "model_search": model_search,
-        "timeout_s": timeout_s or {"quick": 900, "thorough": 3000},
+        "timeout_s": timeout_s or {"quick": 600, "thorough": 3000},
     }
 
 
